@@ -88,6 +88,13 @@ def write_command(d, beh):
         with open(os.path.join(pay, 'f%d' % i), 'wb') as f:
             f.write(data)
         target = os.path.join(d + '_out', nm) if nm in beh.get('sibling', ()) else os.path.join(d, 'outdir', nm)
+        if nm in beh.get('link', ()):
+            # the output is a symbolic link (absolute target) to a file the command rewrites: latest -> store/<name>
+            store = os.path.join(d, 'store')
+            lines.append('mkdir -p %s' % sh_quote(store))
+            lines.append('cp %s %s' % (sh_quote(os.path.join(pay, 'f%d' % i)), sh_quote(os.path.join(store, nm))))
+            lines.append('ln -sf %s %s' % (sh_quote(os.path.join(store, nm)), sh_quote(os.path.join(d, 'outdir', nm))))
+            continue
         if nm in beh.get('tmp', ()):
             # written under $TMPDIR (gentest points it at a directory of its own and tracks what appears there)
             lines.append('cp %s "$TMPDIR"/%s' % (sh_quote(os.path.join(pay, 'f%d' % i)), sh_quote(nm)))
